@@ -11,6 +11,10 @@ CONSTANTS
   MaxInFlight = 1
   ForgeBudget = 0
   Classes <- AllClasses
+  FineIngest = FALSE
+  Batch = FALSE
+  Worker = {}
+  Variant_ReadLatestBeforeBegin = FALSE
   Defect_PruneAfterFailedIngest = FALSE
   Defect_PruneFlagSkipsLatestCheck = TRUE
   Defect_LogIdFromTopicUnchecked = FALSE
